@@ -6,7 +6,9 @@ CONSTANTS MinLen, MaxLen, MaxVal, MaxDegree, DoExport, Mode
 VARIABLES x, par
 Vectors == UNION {[1..n -> 0..MaxVal] : n \in MinLen..MaxLen}
 Later == <<0, 1, MaxVal, 2>>     \* later data (not all inside the training range for some x)
-BSParams == {[ninner |-> k, degree |-> d, intercept |-> b] : k \in 0..2, d \in 1..MaxDegree, b \in BOOLEAN}
+\* lbo / ubo: how far the explicit boundary knots lie outside the extremes of the training data (0: not passed)
+BSParams == {p \in [ninner : 0..2, degree : 0..MaxDegree, intercept : BOOLEAN, lbo : 0..1, ubo : 0..1] :
+               p.ninner + p.degree + (IF p.intercept THEN 1 ELSE 0) >= 1}
 PolyParams == {[degree |-> d] : d \in 1..MaxDegree}
 DecisionParams ==
   {[df |-> a, nk |-> k, degree |-> d, degree_is_int |-> di, df_is_int |-> fi, intercept |-> b, bounds_ok |-> bo, knots_inside |-> ki] :
@@ -21,25 +23,28 @@ Spec == Init /\ [][Next]_<<x, par>>
 (* ---- theorems ---- *)
 CenterScale == Mode = "poly" => (CenterMeanZero(x) /\ ScaleUnitVariance(x))
 Poly == Mode = "poly" => PolyOrthogonal(x, par.degree)
-InsideRows(y) == SelectSeq(y, LAMBDA v : InBounds(x, v))
+LB == Min(x) - par.lbo
+UB == Max(x) + par.ubo
+InsideRows(y) == SelectSeq(y, LAMBDA v : LB <= v /\ v <= UB)
+LaterB == <<0, 1, MaxVal, 2, MaxVal + 1>>
 BS ==
   Mode = "bs" =>
-    LET m == BSMatrix(x, x, par.ninner, par.degree, par.intercept)
+    LET m == BSMatrixB(x, x, par.ninner, par.degree, par.intercept, LB, UB)
         ncols == par.ninner + par.degree + (IF par.intercept THEN 1 ELSE 0)
     IN /\ \A r \in 1..Len(m) : Len(m[r]) = ncols
        /\ BSNonNegative(m)
        /\ par.intercept => BSPartitionOfUnity(m)
        \* later data inside the boundary knots: same contracts with the remembered knots
-       /\ LET m2 == BSMatrix(x, InsideRows(Later), par.ninner, par.degree, par.intercept)
+       /\ LET m2 == BSMatrixB(x, InsideRows(LaterB), par.ninner, par.degree, par.intercept, LB, UB)
           IN BSNonNegative(m2) /\ (par.intercept => BSPartitionOfUnity(m2))
 Decision == Mode = "decision" => BSDecisionImpl(par) = BSDecisionAbs(par)
 
 Seq2(m) == m
 Case ==
   CASE Mode = "bs" ->
-         [mode |-> Mode, x |-> x, par |-> par, later |-> InsideRows(Later),
-          train |-> Seq2(BSMatrix(x, x, par.ninner, par.degree, par.intercept)),
-          new |-> Seq2(BSMatrix(x, InsideRows(Later), par.ninner, par.degree, par.intercept)),
+         [mode |-> Mode, x |-> x, par |-> par, later |-> InsideRows(LaterB), lb |-> LB, ub |-> UB,
+          train |-> Seq2(BSMatrixB(x, x, par.ninner, par.degree, par.intercept, LB, UB)),
+          new |-> Seq2(BSMatrixB(x, InsideRows(LaterB), par.ninner, par.degree, par.intercept, LB, UB)),
           knots |-> InnerKnots(x, par.ninner)]
     [] Mode = "poly" ->
          [mode |-> Mode, x |-> x, par |-> par, later |-> Later, defined |-> PolyDefined(x, par.degree),
